@@ -83,9 +83,10 @@ def oracle_dynamic(ctx, stores):
     sb = [(f, b) for f, b, _ in stores]
     impl = lib.run_impl(ctx, [lib.store_cmd("cfg live -", f, b) for f, b in sb], tag="oracle-dyn")
     diag = lib.run_impl(ctx, [lib.store_cmd("diag -", f, b) for f, b in sb], tag="oracle-dyn-diag")
+    first = lib.run_impl(ctx, [lib.store_cmd("cfg dir -", f, b) for f, b in sb], tag="oracle-dyn-dir")
     bad = []
     transfers = 0
-    for (f, b, tag), line, dl in zip(stores, impl, diag):
+    for (f, b, tag), line, dl, l0 in zip(stores, impl, diag, first):
         g = dump.parse(lib._PICKS.sub("", line))
         if g is None:
             continue
@@ -93,7 +94,12 @@ def oracle_dynamic(ctx, stores):
         # the property quantifies over programs whose every path ends in ret or an exit ecall: a node that can
         # run off the end (no successor, not a return, not an ecall) puts the program outside it - the analyzer
         # deliberately prunes such code and everything that leads only to it
-        if any((not n.nexts) and not dump.is_return(n) and not dump.is_ecall(n) and n.kind != "progentry" for n in ns):
+        # (judged on the graph AS FIRST BUILT, whose edges oracle_transfers checks against the text - not on the finished
+        # graph, where a wrong pruning would itself create such nodes and so hide the program from this oracle: round 8)
+        g0 = dump.parse(lib._PICKS.sub("", l0))
+        if g0 is None or len(g0["nodes"]) != len(ns):
+            continue
+        if any((not n.nexts) and not dump.is_return(n) and not dump.is_ecall(n) and n.kind != "progentry" for n in g0["nodes"]):
             continue
         rng = random.Random(ctx.seed * 7919 + len(line))
         _f, edges, executed = interp.run_graph(g, rng, runs=2)
